@@ -55,7 +55,9 @@ SCALAR_VALUES = {
 }
 LIST_VALUES = {
     "format": {"fv1": ["plain", "json", "progress"], "fv2": ["pretty", "null"], "cv1": ["tags"], "cv2": ["steps", "rerun"]},
-    "outfiles": {"fv1": ["o_b.txt", "sub/o_a.txt", "../o_c.txt"], "fv2": ["p_b.out", "p_a.out"],
+    # (entries that contain a comma: one entry per line of the file value, a comma does not separate entries)
+    "name": {"fv1": ["Alice, Bob and Charly", "ba{1,2}r", "name_c"], "fv2": ["x,y", "name_x"], "cv1": ["c,1"], "cv2": ["name_c2b", "n, a"]},
+    "outfiles": {"fv1": ["o_b.txt", "sub/o_a.txt", "../o_c.txt"], "fv2": ["p,b.out", "p_a.out"],
                  "cv1": ["c1.out"], "cv2": ["c2_b.out", "c2_a.out"]},
     "paths": {"fv1": ["f_b", "sub/f_a", "../f_c"], "fv2": ["g_b", "g_a"], "cv1": ["c1_p"], "cv2": ["c2_b", "c2_a"]},
     "tags": {"fv1": ["@f_b", "@f_a", "@f_c"], "fv2": ["@g_b", "@g_a"], "cv1": ["@c1"], "cv2": ["@c2_b", "@c2_a"]},
